@@ -9,6 +9,9 @@ for m in mods:
     importlib.import_module("specs." + m)
 only = [a for a in sys.argv[2:] if not a.startswith("-")]
 only = only[0].split(",") if only else None
+import os
+for _f in os.environ.get("VERIF_FLAGS","").split(","):
+    if _f: REG.flags[_f]=True
 prog = Program()
 ex = Exec(prog, REG)
 results = []
